@@ -10,11 +10,11 @@ streams
   while: `\\whiledo` counter loops, 0..6 iterations.
 """
 import logging
+import extract
 from framework import Case, Violation
 
 ID = 'C19'
 LEAN_MODULE = 'PlasVerif.Properties.C19'
-GENERATED = ['ifthen']
 LEVEL_TEXT = ('Lean 4 theorems over a line-by-line model of ifthenelse.evaluate / whiledo.invoke: shunting_yard_correct proves, for every '
               'expression tree of the property grammar at any depth (\\not anywhere an operand may stand, \\and/\\or left to right, \\( \\) grouping), '
               'that the evaluator returns exactly the denotation and never raises; then_xor_else, redundant_parens_irrelevant, double_not and '
@@ -33,6 +33,32 @@ RULE = ('trees of the Spec grammar generated recursively from the seed (depth<=6
 EXHAUSTIVE = {}
 
 logging.disable(logging.CRITICAL)
+
+# ---------------------------------------------------------------- translator
+
+def gen_ifthen():
+    from plasTeX.Packages import ifthen
+    from plasTeX.Tokenizer import Other
+    from plasTeX import number
+    it = ifthen.ifthenelse()
+    class _lp(ifthen.Command): macroName = '('
+    class _rp(ifthen.Command): macroName = ')'
+    probes = [('Lt', Other('<')), ('Gt', Other('>')), ('Eq', Other('=')), ('And', ifthen._and()), ('Or', ifthen._or()),
+              ('Not', ifthen._not()), ('Lpar', _lp()), ('Rpar', _rp()), ('Num', number(3)), ('Bool', ifthen._true())]
+    body = []
+    for name, tok in probes:
+        v = it.prec(tok)
+        if not isinstance(v, int) or v < 0 or v > 1000:
+            raise ValueError('prec(%s) = %r' % (name, v))
+        body.append('def prec%s : Nat := %d' % (name, v))
+    src = (extract.HEADER % ('plasTeX/Packages/ifthen.py (ifthenelse.prec)', 'probed') +
+           'namespace PlasVerif.Generated.IfThen\n'
+           '/-! operator precedence `ifthenelse.prec` on each token kind of the model -/\n' +
+           '\n'.join(body) + '\nend PlasVerif.Generated.IfThen\n')
+    return 'PlasVerif/Generated/IfThen.lean', src, 'probed'
+
+
+GENERATED = [gen_ifthen]
 
 # ---------------------------------------------------------------- generation
 
